@@ -5,6 +5,7 @@ CONSTANTS
   VarLong = 4
   Padding = TRUE
   RelFpuOK = TRUE
+  SelfKinds = {}
   Labels = {"la", "lb"}
   MaxItems = 3
   Fills = {1}
